@@ -3,6 +3,7 @@ import Jwt.Generated.JwkTables
 import Jwt.Lemmas.Json
 import Jwt.Lemmas.AlgFacts
 import Jwt.Props.C11
+import Jwt.Lemmas.PipelineJwk
 /-!
 # C08 — JWK import preserves the key and its metadata
 
@@ -144,5 +145,24 @@ example : ([122, 122] : Bytes) ∉ readSet := by decide
 example : ([120, 53, 99] : Bytes) ∉ readSet := by decide     -- "x5c"
 example : (Json.obj [(nKty, .str sOct), (nK, .str (uriEncode [1, 2, 3]))]).objGet nK = some (.str (uriEncode [1, 2, 3])) := by
   rfl
+
+/-- **The metadata import is the source's.** `jwk_process_values` is *generated* from `jwks.c` with flags for what it
+stores. For all 2048 combinations of its tests (allocation succeeding): a message is written exactly for an `alg` that is
+there and is not a string, and then nothing else is stored; otherwise `alg`, `use` (sig / enc), `key_ops` and `kid` are
+stored each under its own condition -- no member's handling depends on another's. -/
+theorem C08_values_flags : ∀ a b c d e f g h i j k : Bool,
+    let r := Jwt.Generated.Pipeline.processValues a b c d e f g h i j k false
+    r.2.1 = (!a && !b) ∧ r.2.2.1 = (!a && b) ∧
+    (r.2.1 = false → r.2.2.2.1 = (!c && d && e) ∧ r.2.2.2.2.1 = (!c && d && !e && f) ∧ r.2.2.2.2.2.1 = (!g && h) ∧ r.2.2.2.2.2.2 = (!i && j && !k)) :=
+  fun a b c d e f g h i j k => ⟨(processValues_flags a b c d e f g h i j k).2.1, (processValues_flags a b c d e f g h i j k).2.2.1,
+    (processValues_flags a b c d e f g h i j k).2.2.2.2⟩
+
+/-- the model flags an item in `jwk_process_values` exactly when the generated code writes a message, and stores the key id
+exactly when the generated code does (a non-empty string `kid`), as that string -/
+theorem C08_values_are_source (jwk : Json) (it : Item) (hit : it.error = false) :
+    ((processValues jwk it).error = (processValuesGen jwk).2.1) ∧
+    ((processValuesGen jwk).2.1 = false →
+      ((processValuesGen jwk).2.2.2.2.2.2 = true ↔ ∃ s, (jwk.objGet [107, 105, 100]).bind Json.strVal = some s ∧ s ≠ [] ∧ (processValues jwk it).kid = some s)) :=
+  processValues_generated jwk it hit
 
 end Jwt.Props.C08
